@@ -58,6 +58,17 @@ Qed.
 (* what "the validator accepts the opening transaction" gives: the validated
    output is the FIRST output carrying the swap amount, its script is the P2WSH
    script, and GetVoutAndVerify returns its index with ok = true *)
+Lemma find_swap_out_of_amount amt want outs : forall k i o,
+  find_amount amt k outs = Some (i, o) -> o_script o = want ->
+  find_swap_out amt want k outs = Some (i, o).
+Proof.
+  induction outs as [|x r IH]; intros k i o H Hs; simpl in *; [discriminate|].
+  destruct (Z.eqb_spec (o_value x) amt) as [E|E].
+  - inversion H; subst. cbn [andb]. replace (bytes_eqb (o_script o) (o_script o)) with true; [reflexivity|].
+    symmetry. apply bytes_eqb_eq. reflexivity.
+  - cbn [andb]. apply IH; assumption.
+Qed.
+
 Lemma btc_validate_inv p want outs :
   btc_validate p want outs = true ->
   exists i o redeem,
@@ -71,7 +82,8 @@ Proof.
   unfold btc_validate, btc_validated_index, btc_get_vout. intros H.
   destruct (find_amount (i64 (sp_amount p)) 0 outs) as [[i o]|] eqn:Ef; [|discriminate].
   destruct (redeem_script p gen_onchain_bitcoin_csv_c03) as [redeem|] eqn:Er; [|discriminate].
-  rewrite H. apply bytes_eqb_eq in H.
+  apply bytes_eqb_eq in H. symmetry in H.
+  rewrite (find_swap_out_of_amount _ _ _ _ _ _ Ef H).
   apply find_amount_spec in Ef as (Hk & Hn & Hv & Hf). rewrite Z.sub_0_r in *.
   exists i, o, redeem. repeat split; auto; try lia.
 Qed.
